@@ -39,6 +39,7 @@ TStep ==
             [] tr.kind = "appnd" ->
                  \* N-D coordinate variables: each column on its own grid pair
                  /\ ChkT(tr, 1, "interpDimension (N-D): result shape", tr.shape_ok)
+                 /\ ChkT(tr, 1, "interpDimension (N-D): unlimited flag of a surviving dimension changed (C01)", tr.flags_ok)
                  /\ \A q \in 1..Len(tr.cols) : LET c == tr.cols[q] IN
                       /\ MatEq(tr, "interpDimension (N-D) values of column " \o ToString(q - 1), <<c.got>>,
                                <<Applied(c.xs, c.nxs, tr.ex, c.d)>>)
